@@ -799,6 +799,14 @@ def all_targets() -> list:
 
 
 def tname(t) -> str:
+    if "seq" in t:
+        return f"{t['k']}[{tname(t['seq'])}]"
+    if "map" in t:
+        return f"dict[{tname(t['map'][0])},{tname(t['map'][1])}]"
+    if "tup" in t:
+        return "tuple[" + ",".join(tname(x) for x in t["tup"]) + "]"
+    if "cons" in t:
+        return f"{tname(t['cons'])}({t['c'][0]}={t['c'][1]})"
     if "cls" in t:
         return t["cls"] + ("" if not t.get("sub") else f"#{t['sub']}")
     if "enum" in t:
@@ -1142,7 +1150,7 @@ class C12(Check):
         lines, index = [], []
         for i, c in enumerate(cases):
             ls = parse_model_lines(c) if c.get("op") == "parse" else [self.model_line(c)]
-            index.append((len(lines), len(ls), c.get("op") == "parse" and c.get("kind") == "dataclass"))
+            index.append((len(lines), len(ls), c.get("op") == "parse" and c.get("kind") in ("dataclass", "inherit")))
             lines += ls
         flat = run_model(lines)
         model_outs = [flat[a:a + n] if multi_line else flat[a] for a, n, multi_line in index]
@@ -1458,6 +1466,54 @@ UNION_MEMBERS = [{"cls": b, "sub": 0} for b in ("NoneType", "bool", "int", "floa
                                                 "date", "datetime", "timedelta", "time", "UUID")] + [{"cls": "int", "sub": 1}, {"enum": 2}, {"enum": 0}]
 
 
+def _plain(b):
+    return {"cls": b, "sub": 0}
+
+
+GENERIC_MEMBERS = [
+    {"seq": _plain("int"), "k": "list"}, {"seq": _plain("float"), "k": "list"}, {"seq": _plain("str"), "k": "list"},
+    {"seq": _plain("date"), "k": "list"}, {"seq": _plain("datetime"), "k": "list"}, {"seq": _plain("bytes"), "k": "list"},
+    {"seq": _plain("bool"), "k": "list"}, {"seq": _plain("int"), "k": "set"}, {"seq": _plain("int"), "k": "tuple"},
+    {"map": [_plain("str"), _plain("int")]}, {"map": [_plain("str"), _plain("float")]}, {"map": [_plain("int"), _plain("str")]},
+    {"tup": [_plain("int"), _plain("int")]}, {"tup": [_plain("float"), _plain("int")]}, {"tup": [_plain("int"), _plain("str")]},
+    {"cons": _plain("int"), "c": ["intGt", 0]}, {"cons": _plain("int"), "c": ["intLe", 10]}, {"cons": _plain("str"), "c": ["strMaxLen", 3]},
+    {"seq": {"seq": _plain("int"), "k": "list"}, "k": "list"},
+    _plain("int"), _plain("float"), _plain("str"), _plain("NoneType"),
+]
+
+
+def generic_values():
+    vals = [[1.5], [2, 0.25, 3.0], [1, 2], ["1", "2"], [1.0], [], {"a": 1.5}, {"a": 1, "b": 2.5}, {"a": "1"}, {1: "x"}, {"1": "x"}, (1.5, 2), [0.5, 7],
+            (1, 2, 3), (1, 2), ["a", 1], [1, "a"], [DT], [date(2020, 1, 1)], ["2020-01-01"], ["2020-01-01 10:00:00"], [datetime(2020, 1, 1)],
+            [b"\xff1"], [b"12"], 5, -3, 11, 5.0, 0.5, "5", "abcd", "ab", "[1,2]", "1,2", (1,), {1}, None, 3.7, [True], [[1]], [[1.5]], "{}",
+            '{"a": 1}', [1, 2, 3.5], {"a": [1]}, ["true"], [0, 1], b"5", ["a", "b"], (2.0, 3.0)]
+    return [_e(v) for v in vals]
+
+
+def member_type(m, envc):
+    """the Python type a member descriptor stands for"""
+    import typing
+    from utype import Rule
+    if "seq" in m:
+        e = member_type(m["seq"], envc)
+        return {"list": typing.List[e], "set": typing.Set[e], "frozenset": typing.FrozenSet[e], "tuple": typing.Tuple[e, ...],
+                "deque": typing.Deque[e]}[m["k"]]
+    if "map" in m:
+        return typing.Dict[member_type(m["map"][0], envc), member_type(m["map"][1], envc)]
+    if "tup" in m:
+        return typing.Tuple[tuple(member_type(x, envc) for x in m["tup"])]
+    if "cons" in m:
+        base = target_class(m["cons"], envc)
+        name, n = m["c"]
+        attr = {"intGt": "gt", "intLe": "le", "strMaxLen": "max_length"}[name]
+        return type("R_" + name, (base, Rule), {attr: n})
+    return target_class(m, envc)
+
+
+def is_generic(m):
+    return any(k in m for k in ("seq", "map", "tup", "cons"))
+
+
 def union_values():
     vals = [3.7, 3.0, 2.5, 0.0, 1.0, Decimal("1.5"), Decimal("7"), Decimal("1"), Decimal("0.0"), "12", "2.50", "3.0", b"10", b"true", "true",
             "null", "None", "yes", "", 1, 0, 2, True, False, None, "2020-02-20", "2020-02-20 10:11:12", "2020-02-20 00:00:00", 1641158543,
@@ -1491,6 +1547,19 @@ def union_cases(tier, rng):
     for _ in range(300 if tier != "thorough" else 4000):
         ms = rng.sample(UNION_MEMBERS, rng.choice([2, 3, 3, 4]))
         out.append({"op": "union", "members": ms, "value": rng.choice(vals), "env": ENV, "route": rng.choice(["transform", "transform", "field"])})
+    # members that are Rules: parametrised generics and constrained types, every ordered pair
+    gvals = generic_values()
+    gpairs = [(a, b) for a in GENERIC_MEMBERS for b in GENERIC_MEMBERS if a != b and (is_generic(a) or is_generic(b))]
+    gdemo = [([1.5], 0, 1), ([2, 0.25, 3.0], 0, 1), ({"a": 1.5}, 9, 10), ((1.5, 2), 12, 13), ([0.5, 7], 12, 13), ([DT], 3, 4), ([b"\xff1"], 0, 5)]
+    for v, i, j in gdemo:
+        for route in ("transform", "field"):
+            out.append({"op": "union", "members": [GENERIC_MEMBERS[i], GENERIC_MEMBERS[j]], "value": _e(v), "env": ENV, "route": route})
+    for a, b in gpairs:
+        for v in (gvals if tier == "thorough" else rng.sample(gvals, 3)):
+            out.append({"op": "union", "members": [a, b], "value": v, "env": ENV, "route": "transform"})
+    for _ in range(200 if tier != "thorough" else 3000):
+        ms = rng.sample(GENERIC_MEMBERS, rng.choice([2, 3, 3]))
+        out.append({"op": "union", "members": ms, "value": rng.choice(gvals), "env": ENV, "route": rng.choice(["transform", "field"])})
     return out
 
 
@@ -1498,7 +1567,7 @@ def impl_union(case):
     import typing
     from utype import Options, Rule, Schema, type_transform
     envc = enum_classes(case["env"])
-    members = [target_class(t, envc) for t in case["members"]]
+    members = [member_type(t, envc) for t in case["members"]]
     ann = typing.Union[tuple(members)]
     out, results = {}, {}
     signal.signal(signal.SIGALRM, _alarm)
@@ -1530,8 +1599,8 @@ def impl_union(case):
             out["same_" + key] = _same(results["ff"], results[key])
     # does any member accept the value strictly (both preferences)?  (classification of union-member-choice-under-nec)
     strict = False
-    for m in members:
-        o, _ = impl_call(m, dec(case["value"], envc), True, True, envc)
+    for m, desc in zip(members, case["members"]):
+        o, _ = impl_call(Rule.parse_annotation(m) if is_generic(desc) else m, dec(case["value"], envc), True, True, envc)
         if "ok" in o:
             strict = True
             break
@@ -1653,8 +1722,113 @@ def dc_dec(j):
     return dec(j, None)
 
 
+# --- preferences that arrive by inheritance / decoration / from an overriding outer class ------------------------
+
+DELIVERIES = ("own", "base1", "base2", "decorator", "decorator_derived", "optcls", "optcls_base", "dataclass", "outer_override",
+              "from_options")
+INHERIT_FIELDS = {"count": {"cls": "int", "sub": 0}, "day": {"cls": "date", "sub": 0}, "flag": {"cls": "bool", "sub": 0},
+                  "name": {"cls": "str", "sub": 0}}
+
+
+def inherit_values():
+    return {
+        "count": [1.5, "2.75", "3", 3, 3.0, Decimal("1.0"), Decimal("1.5"), True, [1, 2], [3], b"\xff1", b"7", "", timedelta(hours=1)],
+        "day": [datetime(2022, 3, 4, 10, 11, 12), "2022-03-04 10:11:12", "2022-03-04", date(2022, 3, 4), "2022-03-04 00:00:00", 1641158543,
+                b"2022-03-04", ["2022-03-04", "2022-03-05"]],
+        "flag": ["maybe", "true", "no", 1, 2, 0.0, "", [True, False], b"yes", "2"],
+        "name": [["a", "b"], ["a"], "测试1".encode("gbk"), 107, "x", b"ok", 1.5, {"a": 1}, True],
+        "pair": [(1, 2, 3), (1, 2), [1, 2, 3], [1, 2], (1.5, 2), ("1", 2)],
+        "unknown": ["x"],
+    }
+
+
+def inherit_cases(tier, rng):
+    out = []
+    vals = inherit_values()
+    for d in DELIVERIES:
+        for field, vs in vals.items():
+            for v in vs:
+                out.append({"op": "parse", "kind": "inherit", "delivery": d, "field": field, "value": _e(v)})
+    return out
+
+
+def build_delivery(delivery, o, flags):
+    """a data class with the fields count/day/flag/name/pair that receives the preferences `flags` the given way;
+    returns a function kwargs -> instance"""
+    import typing
+    import utype
+    from utype import Options, Schema
+    ann = {"count": int, "day": date, "flag": bool, "name": str, "pair": typing.Tuple[int, int]}
+    body = {"__annotations__": ann, "count": 0, "day": None, "flag": None, "name": None, "pair": None}
+    if delivery == "own":
+        C = type("C", (Schema,), dict(body, __options__=o))
+    elif delivery == "base1":
+        B = type("B", (Schema,), {"__options__": o, "__annotations__": {"z": int}, "z": 0})
+        C = type("C", (B,), dict(body))
+    elif delivery == "base2":
+        B = type("B", (Schema,), {"__options__": o})
+        M = type("M", (B,), {"__annotations__": {"z": int}, "z": 0})
+        C = type("C", (M,), dict(body))
+    elif delivery == "decorator":
+        C = o(type("C", (Schema,), dict(body)))
+    elif delivery == "decorator_derived":
+        D = o(type("P", (Schema,), {}))
+        C = type("C", (D,), dict(body))
+    elif delivery == "optcls":
+        C = type("C", (Schema,), dict(body, __options__=type("__options__", (Options,), dict(flags))))
+    elif delivery == "optcls_base":
+        B = type("B", (Schema,), {"__options__": type("__options__", (Options,), dict(flags))})
+        C = type("C", (B,), dict(body))
+    elif delivery == "dataclass":
+        C = utype.dataclass(type("C", (), dict(body)), options=o)
+        return lambda kw: {k: v for k, v in vars(C(**kw)).items() if not k.startswith("_")}
+    elif delivery == "outer_override":
+        Inner = type("Inner", (Schema,), dict(body))
+        Outer = type("Outer", (Schema,), {"__options__": Options(override=True, **flags), "__annotations__": {"inner": Inner}})
+        return lambda kw: dict(Outer(inner=kw).inner)
+    elif delivery == "from_options":
+        Plain = type("Plain", (Schema,), dict(body))
+        return lambda kw: dict(Plain.__from__(kw, options=o))
+    else:
+        raise ValueError(delivery)
+    return lambda kw: dict(C(**kw))
+
+
+def impl_inherit(case):
+    from utype import Options
+    out = {}
+    field = case["field"]
+    for key, nec, ndl in FLAG_KEYS:
+        flags = {}
+        if nec:
+            flags["no_explicit_cast"] = True
+        if ndl:
+            flags["no_data_loss"] = True
+        for which in (case["delivery"], "own"):
+            v = dec(case["value"], None)
+            kw = {"unknown_key": v} if field == "unknown" else {field: v}
+            try:
+                make = build_delivery(which, Options(**flags), flags)
+                r = make(kw)
+            except Exception as e:
+                res = _err(e)
+                if "perr" not in res:
+                    res = {"perr": "escape:" + res.get("escape", "")}
+            else:
+                if field == "unknown":
+                    res = {"ok": "kept" if "unknown_key" in r else "dropped"}
+                else:
+                    res = {"ok": enc(r.get(field), None)}
+            out[key + ("" if which == case["delivery"] else "_own")] = res
+            if which == "own" and case["delivery"] == "own":
+                break
+        if case["delivery"] == "own":
+            out[key + "_own"] = out[key]
+    return out
+
+
 def parse_cases(tier, rng):
-    out = dataclass_instance_cases(tier, rng)
+    out = dataclass_instance_cases(tier, rng) + inherit_cases(tier, rng)
     for ndl in (False, True):
         for a in ADDITIONS:
             out.append({"op": "parse", "kind": "options", "ndl": ndl, "addition": a})
@@ -1688,6 +1862,8 @@ def impl_parse(case):
     import utype
     from utype import Options, Rule, Schema, type_transform
     kind = case["kind"]
+    if kind == "inherit":
+        return impl_inherit(case)
     if kind == "options":
         v = _opts(case).addition
         return {"addition": "none" if v is None else ("no" if v is False else "yes")}
@@ -1777,13 +1953,85 @@ def parse_model_lines(case):
     """driver lines for one parse case (the dataclass kind needs one per flag combination)"""
     if case["kind"] == "dataclass":
         return [dict(case, value=dc_to_model(case["value"]), nec=nec, ndl=ndl) for _, nec, ndl in FLAG_KEYS]
+    if case["kind"] == "inherit":
+        f = case["field"]
+        if f in INHERIT_FIELDS:       # the field's converter under the class's (inherited) flags
+            return [mk_case(INHERIT_FIELDS[f], case["value"])]
+        if f == "pair":
+            return [{"op": "parse", "kind": "tuple", "ndl": ndl, "addition": "unset", "nargs": 2, "nvals": len(case["value"]["q"])}
+                    for ndl in (False, True)]
+        return [{"op": "parse", "kind": "schema", "ndl": ndl, "addition": "unset"} for ndl in (False, True)]
     return [case]
+
+
+def compare_inherit(case, io, mo):
+    # (1) the delivery is equivalent to declaring the options on the class itself (`declaredFlags`, `contextFlags`)
+    for key, _, _ in FLAG_KEYS:
+        a, b = io[key], io[key + "_own"]
+        if ("ok" in a) != ("ok" in b) or ("ok" in a and canon(a["ok"]) != canon(b["ok"])):
+            return f"inherit {case['delivery']} {key}: {a} but with its own declaration {b}"
+    # (2) the field goes through the model's converter under those flags
+    f = case["field"]
+    for key, nec, ndl in FLAG_KEYS:
+        got = io[key]
+        if f in INHERIT_FIELDS:
+            m = mo[0].get(key) if isinstance(mo[0], dict) else None
+            if not isinstance(m, dict) or "unmodelled" in m:
+                continue
+            if jtype(case["value"]) == ttype(INHERIT_FIELDS[f]) and "ok" in got:
+                continue
+            if ("ok" in m) != ("ok" in got) or ("ok" in m and canon(m["ok"]) != canon(got["ok"])):
+                return f"inherit {case['delivery']} {key} field {f}: model {json.dumps(m)[:120]} impl {json.dumps(got)[:120]}"
+        elif f == "pair":
+            ex = mo[1 if ndl else 0].get("excess")
+            if ex and "ok" in got:
+                return f"inherit {case['delivery']} {key}: model reports excess items {ex}, impl {got}"
+        else:
+            fate = mo[1 if ndl else 0].get("fate")
+            want = "rejected" if fate == "rejected" else fate
+            have = got.get("ok") if "ok" in got else "rejected"
+            if want != have:
+                return f"inherit {case['delivery']} {key}: unknown key model {want}, impl {have}"
+    return None
+
+
+def spec_inherit(case, io):
+    f, v = case["field"], case["value"]
+    where = f"class receiving its options by '{case['delivery']}'"
+    for key, nec, ndl in FLAG_KEYS[1:]:
+        got = io[key]
+        if "ok" not in got:
+            continue
+        if f in INHERIT_FIELDS:
+            t = INHERIT_FIELDS[f]
+            if jtype(v) != ttype(t):
+                if ndl:
+                    why = CHECK.ndl_promises(t, v, got["ok"], ENV)
+                    if why:
+                        return f"no_data_loss ({flag_name(nec, ndl)}) on a {where}: field {f}: {why}"
+                if nec:
+                    why = CHECK.nec_group(t, v, got["ok"], ENV)
+                    if why:
+                        return f"no_explicit_cast ({flag_name(nec, ndl)}) on a {where}: field {f}: {why}"
+            if "ok" not in io["ff"]:
+                return f"mono on a {where}: field {f} converts under {flag_name(nec, ndl)} but not without flags"
+            if canon(io["ff"]["ok"]) != canon(got["ok"]):
+                return f"mono on a {where}: field {f} under {flag_name(nec, ndl)} {got['ok']} differs from the lenient {io['ff']['ok']}"
+        elif f == "pair":
+            if ndl and len(v["q"]) > 2:
+                return f"no_data_loss ({flag_name(nec, ndl)}) on a {where}: extra tuple item accepted: {got}"
+        else:
+            if ndl:
+                return f"no_data_loss ({flag_name(nec, ndl)}) on a {where}: unknown key was {got['ok']}"
+    return None
 
 
 def compare_parse(case, io, mo):
     kind = case["kind"]
     if isinstance(io, dict) and "skip" in io:
         return None
+    if kind == "inherit":
+        return compare_inherit(case, io, mo)
     if kind == "options":
         return None if io.get("addition") == mo.get("addition") else f"Options.addition: impl {io} model {mo}"
     if kind == "schema":
@@ -1827,6 +2075,8 @@ def spec_parse(case, io):
     kind = case["kind"]
     if isinstance(io, dict) and "skip" in io:
         return None
+    if kind == "inherit":
+        return spec_inherit(case, io)
     ndl, a = case.get("ndl"), case.get("addition")
     if kind == "options":
         if ndl and a in ("unset", "none") and io.get("addition") != "no":
